@@ -36,6 +36,16 @@ TraceStrict ==
      Rec(Cl(~e.schema_valid => (~e.accepted_reader /\ ~e.accepted_file /\ ~e.accepted_cli), "C17.schema_rejected_key_rejected_by_parser"),
          {}, IF e.schema_valid THEN {"unknown_key_probe_validates"} ELSE {})
   /\ UNCHANGED <<cid, ncases>>
+(* the documents the project publishes (what `nfpm init` writes, the reference configuration of the documentation) use *)
+(* documented keys and values only: the strict parser accepts them and the schema validates them                          *)
+TraceDoc ==
+  /\ IsEv("docprobe")
+  /\ LET e == Trace[l] IN
+     Rec(Cl(e.schema_valid, "C17.published_example_validates")
+         \cup Cl(e.parser_accepts, "C17.published_example_parses"),
+         {},
+         IF ~e.is_yaml THEN {"published_example_is_not_yaml"} ELSE {})
+  /\ UNCHANGED <<cid, ncases>>
 TraceLeaf ==
   /\ IsEv("leafprobe")
   /\ LET e == Trace[l] IN Rec(Cl(e.parser_accepts => e.schema_valid, "C17.accepted_leaf_validates"), {}, {})
@@ -45,7 +55,7 @@ TraceEof ==
   /\ PrintT(<<"VIOLSET", ToJson(viol)>>) /\ PrintT(<<"DRIFTSET", ToJson(drift)>>) /\ PrintT(<<"MERRSET", ToJson(merr)>>)
   /\ PrintT(<<"NCASES", ncases>>) /\ TLCSet(1, l)
   /\ UNCHANGED <<cid, viol, drift, merr, ncases>>
-TraceNext == TraceCase \/ TraceEnd \/ TraceFile \/ TraceSchemaParse \/ TraceKey \/ TraceEnum \/ TraceStrict \/ TraceLeaf \/ TraceEof
+TraceNext == TraceCase \/ TraceEnd \/ TraceFile \/ TraceSchemaParse \/ TraceKey \/ TraceEnum \/ TraceStrict \/ TraceDoc \/ TraceLeaf \/ TraceEof
 TraceSpec == TraceInit /\ [][TraceNext]_vars
 HighWater == TLCSet(2, l)
 Accepted == TLCGet(1) = Len(Trace)
